@@ -844,6 +844,7 @@ type scanResult struct {
 	FieldWrites []string `json:"keeper_field_writes"`
 	Callers     []string `json:"callers"`
 	Fields      []string `json:"long_lived_struct_fields"` // census: "dir:Type.field type"
+	FieldTests  []string `json:"conditions_on_mutable_keeper_fields"` // latch census: conditions that read a field written after construction
 }
 
 // scanSources walks /repo's non-test Go sources (x/, app/, precompiles/):
@@ -854,6 +855,8 @@ func scanSources(root string) (scanResult, error) {
 	res := scanResult{}
 	watched := map[string]bool{"AddEVMExtensions": true, "RegisterERC20Extensions": true, "WithPrecompiles": true, "WithChainID": true}
 	fset := token.NewFileSet()
+	mutable := map[string]bool{} // "dir:Type.field" written by a method after construction
+	tests := [][2]string{}       // (field key, description) of every condition reading a receiver field
 	for _, sub := range []string{"x", "app", "precompiles"} {
 		err := filepath.Walk(filepath.Join(root, sub), func(path string, info os.FileInfo, err error) error {
 			if err != nil {
@@ -916,8 +919,32 @@ func scanSources(root string) (scanResult, error) {
 						recvType = t.Name
 					}
 				}
+				// latch census: conditions (if / switch / == / !=) that read a field of a long-lived receiver
+				noteTests := func(e ast.Expr) {
+					if e == nil || recvName == "" || !longLived[recvType] {
+						return
+					}
+					ast.Inspect(e, func(n ast.Node) bool {
+						if se, ok := n.(*ast.SelectorExpr); ok {
+							if id, ok := se.X.(*ast.Ident); ok && id.Name == recvName {
+								tests = append(tests, [2]string{filepath.Dir(rel) + ":" + recvType + "." + se.Sel.Name,
+									fmt.Sprintf("%s:(%s).%s tests %s", filepath.Dir(rel), recvType, fd.Name.Name, se.Sel.Name)})
+							}
+						}
+						return true
+					})
+				}
 				ast.Inspect(fd.Body, func(n ast.Node) bool {
 					switch x := n.(type) {
+					case *ast.IfStmt:
+						noteTests(x.Cond)
+					case *ast.SwitchStmt:
+						noteTests(x.Tag)
+					case *ast.BinaryExpr:
+						if x.Op == token.EQL || x.Op == token.NEQ {
+							noteTests(x.X)
+							noteTests(x.Y)
+						}
 					case *ast.AssignStmt:
 						// long-lived objects only: keepers, precompiles, modules, the app
 						if !ptr || recvName == "" || !longLived[recvType] {
@@ -927,6 +954,7 @@ func scanSources(root string) (scanResult, error) {
 							if se, ok := lhs.(*ast.SelectorExpr); ok {
 								if id, ok := se.X.(*ast.Ident); ok && id.Name == recvName {
 									res.FieldWrites = append(res.FieldWrites, fmt.Sprintf("%s:(*%s).%s writes %s", filepath.Dir(rel), recvType, fd.Name.Name, se.Sel.Name))
+									mutable[filepath.Dir(rel)+":"+recvType+"."+se.Sel.Name] = true
 								}
 							}
 						}
@@ -961,6 +989,13 @@ func scanSources(root string) (scanResult, error) {
 			return res, err
 		}
 	}
+	for _, t := range tests {
+		if mutable[t[0]] {
+			res.FieldTests = append(res.FieldTests, t[1])
+		}
+	}
+	sort.Strings(res.FieldTests)
+	res.FieldTests = uniq(res.FieldTests)
 	sort.Strings(res.FieldWrites)
 	sort.Strings(res.Callers)
 	sort.Strings(res.Fields)
@@ -994,6 +1029,18 @@ var allowedFieldWrites = map[string]string{
 	"app:(*tpsCounter).start writes reportPeriod":                "telemetry",
 }
 
+// latch census: every condition that reads an in-memory field which some method writes after
+// construction.  A new one (e.g. "first block after start": `if k.eip155ChainID == nil` in a
+// BeginBlocker) is a once-per-process latch candidate the restart model does not cover.
+var allowedFieldTests = map[string]string{
+	"x/evm/keeper:(Keeper).WithChainID tests eip155ChainID":  "guards against a different chain id; the value is overwritten with the header's id either way (chainid_initial_irrelevant)",
+	"x/evm/keeper:(Keeper).WithPrecompiles tests precompiles": "construction only: panics when set twice",
+	"x/evm/keeper:(Keeper).SetHooks tests hooks":              "construction only: panics when set twice",
+	"x/epochs/keeper:(Keeper).SetHooks tests hooks":           "construction only: panics when set twice",
+	"x/evm/keeper:(Keeper).ApplyTransaction tests hooks":      "hooks are a constant of construction (SetHooks in NewHaqq)",
+	"x/evm/keeper:(Keeper).PostTxProcessing tests hooks":      "hooks are a constant of construction (SetHooks in NewHaqq)",
+}
+
 var allowedCallers = map[string]string{
 	"AddEVMExtensions called on evmKeeper in x/erc20/keeper/precompiles.go:Keeper.RegisterERC20Extensions": "RegisterERC20Extensions itself has no caller",
 	"WithPrecompiles called on evmKeeper in app/app.go:NewHaqq":                                            "construction",
@@ -1017,6 +1064,11 @@ func scanCase(root string) Case {
 		}
 		if _, ok := allowedFieldWrites[w]; !ok {
 			msgs = append(msgs, "in-memory field written after construction, not covered by the restart model: "+w)
+		}
+	}
+	for _, t := range res.FieldTests {
+		if _, ok := allowedFieldTests[t]; !ok {
+			msgs = append(msgs, "condition on an in-memory field that changes after construction (a once-per-process latch?), not covered by the restart model: "+t)
 		}
 	}
 	for _, cl := range res.Callers {
